@@ -449,7 +449,8 @@ def unit_tokenizer_init_read(sess, ctx):
         res = eng.run_function(ctx.fi(QW + "TokenizerWorker.read"), [], {}, me)
         eng.prove("C14:read:polls-the-stop-marker-once-before-reading", ib.gets == 1, props=P14)
         if stop:
-            eng.prove("C14:read:after-a-stop-returns-end-of-stream-without-touching-the-reader", res is None and gh["rreads"] == 0, props=P14)
+            eng.prove("C14:read:after-a-stop-returns-end-of-stream-without-touching-the-reader", res is None and gh["rreads"] == 0,
+                      props=P14 + P13)
         else:
             eng.prove("C12:read:is-the-wrapped-reader's-block", gh["rreads"] == 1 and (res is blk if rk == 0 else res is None), props=P1214 + P13)
         return None
